@@ -1485,8 +1485,14 @@ impl<Front: SocketHandler + std::fmt::Debug, L: ListenerHandler + L7ListenerHand
                         // The backend timeout should handle this, but in case the backend
                         // is also stalled, send a 504 and terminate the stream.
                         if !self.context.streams[stream_id].back.consumed {
+                            // End the stream on its backend now: once the default answer
+                            // has replaced `stream.back`, an H1 backend connection would
+                            // take that (terminated) answer for its own completed response
+                            // and park itself as KeepAlive although it still owes one.
                             if let Some(back_token) = self.context.unlink_stream(stream_id) {
-                                unlinked_streams.push((stream_id, back_token));
+                                if let Some(backend) = self.router.backends.get_mut(&back_token) {
+                                    backend.end_stream(stream_id, &mut self.context);
+                                }
                             }
                             let answers = answers_rc.borrow();
                             let stream = &mut self.context.streams[stream_id];
@@ -1569,6 +1575,10 @@ impl<Front: SocketHandler + std::fmt::Debug, L: ListenerHandler + L7ListenerHand
                 .map_or_else(Vec::new, |ids| ids.to_owned());
             for stream_id in linked_ids {
                 // This stream is linked to the backend that timedout
+                // End it on the backend first, while `stream.back` still holds what the
+                // backend sent: an H1 backend connection keeps itself alive only when its
+                // own response is complete, not because a 504 replaced it below.
+                backend.end_stream(stream_id, &mut self.context);
                 if self.context.streams[stream_id].back.is_terminated()
                     || self.context.streams[stream_id].back.is_error()
                 {
@@ -1603,7 +1613,6 @@ impl<Front: SocketHandler + std::fmt::Debug, L: ListenerHandler + L7ListenerHand
                     forcefully_terminate_answer(stream, front_readiness, H2Error::InternalError);
                     should_write = true;
                 }
-                backend.end_stream(stream_id, &mut self.context);
             }
             // Re-arm the backend timeout if the session stays alive (draining streams).
             // Without this, the timeout is consumed and the session becomes immortal
